@@ -11,7 +11,7 @@ def scenario(tier):
     def fn(b, sym):
         layout = sym.choose("layout", ["flat", "u1", "nested"])
         if layout == "flat":
-            files = {"R/a.txt": 1, "R/b.txt": 2}
+            files = {"R/a.txt": 1, "R/b.txt": 2, "R/Cafe\u0301.mov": 5}  # (the last name in decomposed spelling)
             dirs = []
         elif layout == "u1":
             files = {"R/a.txt": 1, "R/b c.txt": 2, "R/d/ü.txt": 3, "R/d/e/x&y.txt": 4}
@@ -58,8 +58,14 @@ def scenario(tier):
             what = "alter %s" % f
         elif kind == "rename":
             f = sym.choose("target", fl)
-            b.rename(f, posixpath.join(posixpath.dirname(f), "renamed.dat"))
-            what = "rename %s" % f
+            import unicodedata
+            nfc = unicodedata.normalize("NFC", f)
+            if nfc != f and sym.flag("rename_to_composed_spelling"):
+                b.rename(f, nfc)  # another name for the file system, the "same" name for a reader
+                what = "rename %s to its composed spelling" % f
+            else:
+                b.rename(f, posixpath.join(posixpath.dirname(f), "renamed.dat"))
+                what = "rename %s" % f
         elif kind == "add":
             where = sym.choose("where", sorted(set(posixpath.dirname(f) for f in fl) | set(dirs)))
             if sym.flag("add_dir"):
